@@ -439,4 +439,56 @@ example : ∃ fl s out,
     [exampleResult, exampleResult] (by intro r hr; simp at hr; subst hr; exact aux_example_reprBoth)
   exact ⟨fl, s, out, h1, h2, h3, h4⟩
 
+/-- … and in the common domain of all three formats: its gob value message is small in every zone -/
+theorem aux_example_reprAll : ReprAll exampleResult := by
+  refine ⟨aux_example_reprBoth, fun z => ?_⟩
+  refine { num := exampleResult_repr.num, headers := by intro h hh; cases hh; decide, size := ?_ }
+  intro p hp
+  -- the payload is `FF 80` + fields; every field but the time is a fixed byte string, the time at most 18 bytes
+  have hb : p.length ≤ 200 := by
+    simp only [valuePayload, fieldPayloads, exampleResult] at hp
+    have hz : ¬ ((1700000000123456789 : Int) = zeroTime ∧ z = Zone.utc) := by
+      intro h; exact absurd h.1 (by decide)
+    simp only [hz, ↓reduceIte] at hp
+    cases ht : timeBinary z 1700000000123456789 with
+    | none => rw [ht] at hp; cases hp
+    | some tb =>
+      rw [ht] at hp
+      simp only [Option.map_some, Option.some.injEq] at hp
+      have htl : tb.length ≤ 16 := by
+        unfold timeBinary at ht
+        simp only [] at ht
+        cases z with
+        | utc => simp only [Option.some.injEq] at ht; subst ht; decide
+        | fixed off =>
+          simp only [] at ht
+          split at ht
+          · cases ht
+          · split at ht
+            · simp only [Option.some.injEq] at ht; subst ht
+              simp [beFixed]
+            · simp only [Option.some.injEq] at ht; subst ht
+              simp [beFixed]
+      subst hp
+      have hg : (gBytes tb).length ≤ 17 := by
+        unfold gBytes encodeUint
+        have : tb.length < 128 := by omega
+        simp only [this, ↓reduceIte, List.length_append, List.length_cons, List.length_nil]
+        omega
+      simp only [fString, fUint, fInt, List.length_cons, encFields, List.length_append]
+      have : (gHeader [([88, 45, 65], [[49], [98, 32, 99]])]).length = 13 := by decide
+      simp (config := { decide := true }) [gBytes, encodeUint, this, Option.getD, Option.map]
+      omega
+  unfold tooBig
+  omega
+
+example : ∃ fl s out,
+    allCodecs.runChain (.gob ⟨.utc, trivial⟩) (allCodecs.enc (.gob ⟨.utc, trivial⟩) [exampleResult, exampleResult])
+      [.json ⟨60, by decide⟩, .gob ⟨.fixed 3600, by decide⟩, .csv, .gob ⟨.utc, trivial⟩, .csv] = some (fl, some s) ∧
+    fl = AnyFmt.csv ∧ decodeAny fl s = (out, .eof) ∧ equalAll out [exampleResult, exampleResult] = true := by
+  obtain ⟨fl, s, out, h1, h2, h3, h4⟩ := chain_preserves_all_formats
+    [.json ⟨60, by decide⟩, .gob ⟨.fixed 3600, by decide⟩, .csv, .gob ⟨.utc, trivial⟩, .csv] (.gob ⟨.utc, trivial⟩)
+    [exampleResult, exampleResult] (by intro r hr; simp at hr; subst hr; exact aux_example_reprAll)
+  exact ⟨fl, s, out, h1, h2, h3, h4⟩
+
 end Vegeta.Props.C08
